@@ -329,7 +329,7 @@ func TestC04Enum(t *testing.T) {
 var lexemeVariants = map[ref.Kind][]string{
 	ref.TUnquoted: {"b", "_", "a1", "null", "true", "and", "length", "abs", "Z_9"},
 	ref.TQuoted:   {`""`, `"a b"`, `"é"`, `"a"`, `"\u0041"`, `"\""`},
-	ref.TNumber:   {"1", "-1", "12", "-0", "007", "08", "-09", "0019", "000", "9223372036854775807", "-9223372036854775808"},
+	ref.TNumber:   {"1", "-1", "12", "-0", "007", "08", "-09", "0019", "000", "0000000000000000000", "-00000000000000000000", "00000000000000000001", "000000000000000000000000000007", "9223372036854775807", "-9223372036854775808"},
 	ref.TLiteral:  {"`\"s\"`", "`[1]`", "`{\"a\":1}`", "`null`", "` 1 `", "`\"\\`\"`"},
 	ref.TRaw:      {"''", `'a\'b'`, `'\\'`, "'é'"},
 	ref.TCmp:      {"!=", "<=", ">", ">=", "==", "<"},
@@ -395,7 +395,7 @@ func (g *cfgGen) n(max int, label string) int { return uni(g.t, max, label) }
 var cfgIdents = []string{"a", "b", "c", "foo", "_", "x1", `"q"`, `""`, `"a b"`, `"é"`, "abs", "length", "sort_by", "not_null"}
 var cfgFuncs = []string{"abs", "length", "sort_by", "not_null", "foo", "map", "merge", "to_string", "max_by", "keys"}
 var cfgLits = []string{"`1`", "`\"s\"`", "`[1,2]`", "`{\"a\":1}`", "`null`", "`true`", "`[]`", "'r'", "''", `'a\'b'`}
-var cfgNums = []string{"0", "1", "-1", "2", "-2", "10", "08", "-09", "007", "00", "9223372036854775807", "-9223372036854775808"}
+var cfgNums = []string{"0", "1", "-1", "2", "-2", "10", "08", "-09", "007", "00", "0000000000000000000", "-00000000000000000000", "00000000000000000002", "9223372036854775807", "-9223372036854775808"}
 
 func (g *cfgGen) ident() string { return cfgIdents[g.n(len(cfgIdents), "ident")] }
 
